@@ -14,6 +14,18 @@ def _shape(tree):
     return [(n.__class__.__name__, getattr(n, 'lineno', None), getattr(n, 'col_offset', None), getattr(n, 'end_lineno', None),
              getattr(n, 'end_col_offset', None)) for n in ast.walk(tree)]
 
+def _prims(tree):
+    out = []
+    for n in ast.walk(tree):
+        for f in n._fields:
+            v = getattr(n, f, None)
+            if isinstance(v, list):
+                out.extend(repr(x) for x in v if not isinstance(x, ast.AST))
+            elif not isinstance(v, ast.AST):
+                out.append(repr(v))
+    return out
+
+
 KINDS = ['rt_cut_node', 'rt_cut_slice', 'rt_replace', 'own_src', 'docstr', 'line_comment']
 
 
@@ -102,8 +114,8 @@ class C08(Plugin):
         except SyntaxError:
             parsed = None
         if parsed is not None:
-            vals_p = [repr(n.value) for n in ast.walk(parsed) if isinstance(n, ast.Constant)]
-            vals_l = [repr(n.value) for n in ast.walk(run.root.a) if isinstance(n, ast.Constant)]
+            vals_p = _prims(parsed)   # every primitive value: Constant values, identifiers, names lists, levels ...
+            vals_l = _prims(run.root.a)
 
             if vals_p != vals_l and len(vals_p) == len(vals_l) and _shape(parsed) == _shape(run.root.a):
                 d = [(a, b) for a, b in zip(vals_l, vals_p) if a != b][:3]
